@@ -261,4 +261,38 @@ theorem Separate.single {h : Heap} {x : Id} (hl : x.reg < h.length) (c : Closed 
     Separate h [x] :=
   ⟨List.pairwise_singleton .., fun y hy => by simp only [List.mem_singleton] at hy; subst hy; exact ⟨hl, c, Tidy.ofB t⟩⟩
 
+/-- a route is a look-up in the simulation object: it reads nothing else and writes nothing -/
+def routeAnswer (so : SimObj) (rt : Route) (ent : Nat) : Except Err Id :=
+  match rt with
+  | .persons => .ok so.persons
+  | .getPopulation => match alGet so.pops ent with | some q => .ok q | none => .error .value
+  | .populations => match alGet so.pops ent with | some q => .ok q | none => .error .value
+  | .shortcut => match alGet so.pops ent with | some q => .ok q | none => .error .value
+
+theorem routePop_eq {h : Heap} {x : Id} {so : SimObj} (hs : h.get? x = some (.sim so)) (rt : Route) (ent : Nat) :
+    routePop x rt ent h = (routeAnswer so rt ent, h) := by
+  unfold routePop
+  rw [bind_of_ok (rdSim_eq hs)]
+  cases rt <;> simp only [routeAnswer] <;> first | rfl | (cases alGet so.pops ent <;> rfl)
+
+theorem routeAnswer_mem {so : SimObj} {rt : Route} {ent : Nat} {pid : Id} (e : routeAnswer so rt ent = .ok pid)
+    (hl : alGet so.pops 0 = some so.persons) : ∃ k, (k, pid) ∈ so.pops := by
+  cases rt with
+  | persons => simp only [routeAnswer, Except.ok.injEq] at e; subst e; exact ⟨0, alGet_mem hl⟩
+  | getPopulation =>
+    simp only [routeAnswer] at e
+    cases hg : alGet so.pops ent with
+    | none => rw [hg] at e; cases e
+    | some q => rw [hg] at e; cases e; exact ⟨ent, alGet_mem hg⟩
+  | populations =>
+    simp only [routeAnswer] at e
+    cases hg : alGet so.pops ent with
+    | none => rw [hg] at e; cases e
+    | some q => rw [hg] at e; cases e; exact ⟨ent, alGet_mem hg⟩
+  | shortcut =>
+    simp only [routeAnswer] at e
+    cases hg : alGet so.pops ent with
+    | none => rw [hg] at e; cases e
+    | some q => rw [hg] at e; cases e; exact ⟨ent, alGet_mem hg⟩
+
 end OFCore.Heap
